@@ -147,7 +147,9 @@ func c13enum(c *Ctx) {
 				// error values whose dynamic type is not comparable (a slice-typed aggregate, a struct holding a map)
 				rejectedErr{"quota", "retention"}, detailErr{why: "throttled", tags: map[string]string{"zone": "b"}},
 				// errors that call themselves temporary: no destination is handed a record twice for them
-				syscall.EAGAIN, syscall.EINTR, &os.PathError{Op: "write", Path: "/dev/pts/3", Err: syscall.EAGAIN}}
+				syscall.EAGAIN, syscall.EINTR, &os.PathError{Op: "write", Path: "/dev/pts/3", Err: syscall.EAGAIN},
+				// an error whose text is empty (a sentinel somebody forgot to name)
+				errors.New("")}
 			return kinds[(errKind+attempt)%len(kinds)]
 		}
 		pool = append(pool, w)
